@@ -341,8 +341,28 @@ class C09(DiffProperty):
                "char, terminating zero removed) and checks parent/prev links directly",
                "the text the C parser receives is the one the model printed: length and FNV hash are compared (token t)",
                "an empty value and no value are the same observation (both dumped as n)"]
-    level_text = "see notes_C09.md"
-    level_note = ""
+    level_text = ("proof: Coq theorems C09_print_parse_roundtrip and C09_decoration_irrelevant state for the prefix style '*' (default "
+                  "format) that for EVERY well-formed tree (any depth and fan-out, duplicate names, empty sections, empty values, names "
+                  "with inner blanks, values of any length below 2^31 bytes, plain or quoted), EVERY decoration list (blank lines, "
+                  "indentation, comment lines, blanks around delimiters, trailing comments, quoting choice, brace placement) and "
+                  "EVERY name-flag set, parsing the printed text succeeds and yields exactly the tree (quotes removed, escaped quotes "
+                  "kept), hence the result does not depend on the decoration; C09_print_parse_roundtrip_{enc,sep,encd}_partial and "
+                  "C09_decoration_irrelevant_{enc,sep}_partial state the same for the enclosed, separated and options-only enclosed "
+                  "style for every tree those styles can express (options first, one level of sections, names without white space); "
+                  "by induction over the tree on top of symbolic-execution lemmas for the transcribed parser.  The model is tied to "
+                  "the code on every run: the extracted printer produces the text, the C parser reads it under "
+                  "ASan/UBSan/LeakSanitizer, the resulting tree is compared with the source tree and with the model's parse")
+    level_note = ("trusted: Coq kernel; hand transcription of the parser (validated by the correspondence run, not verified); "
+                  "extraction and OCaml driver; harness.  PARTIAL for the enclosed / separated styles only in that their theorems "
+                  "assume what the styles can express (wf_items: options first, sections one level deep holding options only — the "
+                  "code itself ends an open section at the next section start) and names without embedded white space (the first "
+                  "name character is followed by mpt_parse_nextvis in mpt_parse_option, which drops a blank there); trees outside "
+                  "these conditions are generated too and compared against the model only.  Well-formedness (wf_items) excludes "
+                  "names with newline, delimiter, comment character, path separator '.', blanks at the ends, empty names, names "
+                  "above 65534 bytes, and values that end in a backslash AND cannot be written plain.  An empty value and no value "
+                  "are the same observation.  Metatype storage (inline below 250 bytes, buffer above) is modelled for its bytes "
+                  "only.  The theorems hold for the tree with the fix: commits listed in docs/notes_C09.md.  All 7 theorems are "
+                  "closed under the global context (no axioms).")
     technique = "Coq proof (print/parse round trip by induction over the tree) + differential correspondence check"
     assumptions = ["allocation succeeds", "value lengths stay below 2^32 (width of parser_context.valid after the fix) and INT_MAX"]
 
